@@ -142,6 +142,13 @@ func (c06) Generate(r *rand.Rand, t string) []*Case {
 	for i := 0; i < nm; i++ {
 		out = append(out, c06MultiCase(r))
 	}
+	// settings-as-paths (c04_settings.go): the File's own setting strings (package name, canonical
+	// path, prefix, hint names) reused as referenced paths: none of them makes a path local
+	for i, n := 0, tier(t, 1500, 60000); i < n; i++ {
+		out = append(out, settingsCase(r))
+	}
+	// op-order (c06_hist.go): hint / Anon operations before, between and after the renders
+	out = append(out, c06OpOrderCases(r, t)...)
 	return out
 }
 
@@ -166,7 +173,9 @@ func (c06) Generate(r *rand.Rand, t string) []*Case {
 // in force was the dot alias - and the import block (File.Render) or the File's import table
 // (fragments, read through the `imports` observation that follows every render) agrees with
 // the references of that same output: a bare reference needs `. "path"` or the local path, a
-// qualified one needs an import providing exactly that qualifier.
+// qualified one needs an import providing exactly that qualifier.  File.Anon(path) discards the
+// registration of the path (stream op-order, c06_hist.go): the next output that writes it is
+// judged like a first rendering, under the hint then in force.
 //
 // In a quarter of the cases ("wild") paths and names come from the colliding pools, so that
 // numbered aliases, prefixes and reserved words take part; there the U role is not
@@ -298,11 +307,11 @@ func c06MultiCase(r *rand.Rand) *Case {
 		early = append(early, li)
 		if r.Intn(3) > 0 {
 			if r.Intn(3) == 0 {
-				pre = append(pre, pick2(r, dot(local), ordinary(local)))
+				pre = append(pre, c06Pick2(r, dot(local), ordinary(local)))
 			}
-			ch := []hist.Op{pick2(r, dot(local), ordinary(local))}
+			ch := []hist.Op{c06Pick2(r, dot(local), ordinary(local))}
 			if r.Intn(3) == 0 {
-				ch = append(ch, pick2(r, dot(local), ordinary(local)))
+				ch = append(ch, c06Pick2(r, dot(local), ordinary(local)))
 			}
 			changes = append(changes, ch)
 			changeTag = append(changeTag, "local-hinted-between-renders")
@@ -418,7 +427,7 @@ func c06MultiCase(r *rand.Rand) *Case {
 		Meta: map[string]interface{}{"c06multi": &c06multi{Paths: paths, Local: local}}}
 }
 
-func pick2(r *rand.Rand, a, b hist.Op) hist.Op {
+func c06Pick2(r *rand.Rand, a, b hist.Op) hist.Op {
 	if r.Intn(2) == 0 {
 		return a
 	}
@@ -479,6 +488,11 @@ func c06MultiOracle(c *Case, info *c06multi, got []hist.Obs) string {
 		case "anon":
 			for _, p := range op.Strs {
 				anon[p] = true
+				// File.Anon overwrites the registration of the path: the next output that writes
+				// the path registers it afresh, under the hint in force THEN (which is judged like
+				// a first rendering: bare exactly when that hint is the dot alias).  The hints
+				// themselves are untouched by Anon.
+				delete(first, p)
 			}
 		case "imports":
 			if oi >= len(got) {
